@@ -702,121 +702,125 @@ fn flush_step<KT: KeyGen>(op: u8, faults: bool) {
 }
 
 // ------------------------------------------------------------------------------------ statistics
+/// stand-ins for RecordSizeStats::touch_size / LengthStats::touch_length (binary search +
+/// Vec::insert: a memmove with a solver-chosen length, 38 GB under CBMC): they log the value
+/// touched in the store model.  The harnesses read the log as a multiset; the real containers
+/// are decided on their own by k_touch_size / k_touch_length (sorted histogram of the touches).
+pub fn touch_size_stub<T: Copy + Ord>(_s: &mut abyssiniandb::filedb::RecordSizeStats<T>, p: abyssiniandb::filedb::verif::PieceSize<T>) {
+    let w = w();
+    assert!(w.ntouched < 8);
+    w.touched[w.ntouched] = p.as_value();
+    w.ntouched += 1;
+}
+pub fn touch_length_stub<T: Ord + Default + Copy>(_s: &mut abyssiniandb::filedb::LengthStats<T>, l: abyssiniandb::filedb::verif::Length<T>) {
+    let w = w();
+    assert!(w.ntouched < 8);
+    w.touched[w.ntouched] = l.as_value();
+    w.ntouched += 1;
+}
+
 fn stats_step<KT: KeyGen + std::fmt::Display>(which: u8) {
     let n = setup::<KT>(NPRE, true);
     let m = open::<KT>();
     w().ro = true;
-    // expected histograms straight from the stores
+    // for EVERY value q: the counts reported for q add up to the live non-empty records with that
+    // key length / value length / slot size (one universally quantified q instead of loops over
+    // histograms); nothing is reported for length 0 (free slots and empty keys / values)
+    let q: u32 = kani::any();
+    let mut got = 0u64;
+    let mut e = 0u64;
     let w_ = w();
-    let mut klen_cnt = [0u64; KMAX + 1];
-    let mut vlen_cnt = [0u64; VMAX + 1];
-    let mut i = 0;
-    while i < NK {
-        if w_.keys[i].exists && w_.keys[i].used {
-            klen_cnt[w_.keys[i].klen] += 1;
-        }
-        if w_.vals[i].exists && w_.vals[i].used {
-            vlen_cnt[w_.vals[i].vlen] += 1;
-        }
-        i += 1;
-    }
-    match which % 4 {
+    match which {
         0 => {
             let s = ok(m.key_length_stats());
-            let v = abyssiniandb::filedb::verif_stats::length_vec(&s);
-            let mut l = 1;
-            while l <= KMAX {
-                let mut got = 0u64;
-                let mut j = 0;
-                while j < v.len() {
-                    if v[j].0 as usize == l {
-                        got += v[j].1;
-                    }
-                    j += 1;
-                }
-                assert!(got == klen_cnt[l], "key_length_stats: count differs from the live non-empty keys");
-                l += 1;
-            }
             let mut j = 0;
-            while j < v.len() {
-                assert!(v[j].0 != 0, "key_length_stats counts empty keys / free slots");
+            while j < NK {
+                if j < w_.ntouched {
+                    assert!(w_.touched[j] != 0, "key_length_stats counts empty keys / free slots");
+                    if w_.touched[j] == q {
+                        got += 1;
+                    }
+                }
                 j += 1;
             }
+            assert!(w_.ntouched <= NK);
+            let mut i = 0;
+            while i < NK {
+                if w_.keys[i].exists && w_.keys[i].used && w_.keys[i].klen > 0 && w_.keys[i].klen as u32 == q {
+                    e += 1;
+                }
+                i += 1;
+            }
+            assert!(got == e, "key_length_stats: count for a length differs from the live non-empty keys of that length");
             core::mem::forget(s);
         }
         1 => {
             let s = ok(m.value_length_stats());
-            let v = abyssiniandb::filedb::verif_stats::length_vec(&s);
-            let mut l = 1;
-            while l <= VMAX {
-                let mut got = 0u64;
-                let mut j = 0;
-                while j < v.len() {
-                    if v[j].0 as usize == l {
-                        got += v[j].1;
-                    }
-                    j += 1;
-                }
-                assert!(got == vlen_cnt[l], "value_length_stats: count differs from the live non-empty values");
-                l += 1;
-            }
             let mut j = 0;
-            while j < v.len() {
-                assert!(v[j].0 != 0, "value_length_stats counts empty values / free slots");
+            while j < NK {
+                if j < w_.ntouched {
+                    assert!(w_.touched[j] != 0, "value_length_stats counts empty values / free slots");
+                    if w_.touched[j] == q {
+                        got += 1;
+                    }
+                }
                 j += 1;
             }
+            assert!(w_.ntouched <= NK);
+            let mut i = 0;
+            while i < NK {
+                if w_.vals[i].exists && w_.vals[i].used && w_.vals[i].vlen > 0 && w_.vals[i].vlen as u32 == q {
+                    e += 1;
+                }
+                i += 1;
+            }
+            assert!(got == e, "value_length_stats: count for a length differs from the live non-empty values of that length");
             core::mem::forget(s);
         }
         2 => {
             let s = ok(m.key_piece_size_stats());
-            let v = abyssiniandb::filedb::verif_stats::size_vec(&s);
-            let mut total = 0u64;
             let mut j = 0;
-            while j < v.len() {
-                total += v[j].1;
-                // per size: number of live non-empty key records in a slot of that size
-                let mut e = 0u64;
-                let mut i = 0;
-                while i < NK {
-                    if w_.keys[i].exists && w_.keys[i].used && w_.keys[i].klen > 0 && w_.keys[i].size == v[j].0 {
-                        e += 1;
-                    }
-                    i += 1;
+            while j < NK {
+                if j < w_.ntouched && w_.touched[j] == q {
+                    got += 1;
                 }
-                assert!(v[j].1 == e, "key_piece_size_stats: count differs from the live non-empty key records of that slot size");
                 j += 1;
             }
-            let mut e = 0u64;
-            let mut l = 1;
-            while l <= KMAX {
-                e += klen_cnt[l];
-                l += 1;
+            assert!(w_.ntouched <= NK);
+            let mut i = 0;
+            while i < NK {
+                if w_.keys[i].exists && w_.keys[i].used && w_.keys[i].klen > 0 && w_.keys[i].size == q {
+                    e += 1;
+                }
+                i += 1;
             }
-            assert!(total == e, "key_piece_size_stats: total differs from the live non-empty keys");
+            assert!(got == e, "key_piece_size_stats: count for a slot size differs from the live non-empty key records of that size");
             core::mem::forget(s);
         }
         _ => {
             let s = ok(m.value_piece_size_stats());
-            let v = abyssiniandb::filedb::verif_stats::size_vec(&s);
-            let mut total = 0u64;
             let mut j = 0;
-            while j < v.len() {
-                total += v[j].1;
+            while j < NK {
+                if j < w_.ntouched && w_.touched[j] == q {
+                    got += 1;
+                }
                 j += 1;
             }
-            let mut e = 0u64;
-            let mut l = 1;
-            while l <= VMAX {
-                e += vlen_cnt[l];
-                l += 1;
+            assert!(w_.ntouched <= NK);
+            let mut i = 0;
+            while i < NK {
+                if w_.vals[i].exists && w_.vals[i].used && w_.vals[i].vlen > 0 && 16 + 8 * w_.vals[i].cls as u32 == q {
+                    e += 1;
+                }
+                i += 1;
             }
-            assert!(total == e, "value_piece_size_stats: total differs from the live non-empty values");
+            assert!(got == e, "value_piece_size_stats: count for a slot size differs from the live non-empty value records of that size");
             core::mem::forget(s);
         }
     }
-    let (cnt, pm) = ok(m.htx_filling_rate_per_mill());
     w().ro = false;
-    kani::cover!(n == NPRE, "largest pre-state");
+    kani::cover!(n == NPRE && got == 2, "two records in one histogram cell");
+    kani::cover!(n == NPRE && got == 1, "a cell with one record");
     core::mem::forget(m);
 }
 
@@ -847,10 +851,22 @@ hproof!(m_flush_del_bytes, flush_step::<DbBytes>(1, false));
 hproof!(m_flush_noop_bytes, flush_step::<DbBytes>(2, false));
 hproof!(m_fault_put_bytes, flush_step::<DbBytes>(0, true));
 hproof!(m_fault_del_bytes, flush_step::<DbBytes>(1, true));
-hproof!(m_stats_klen_bytes, stats_step::<DbBytes>(0));
-hproof!(m_stats_vlen_bytes, stats_step::<DbBytes>(1));
-hproof!(m_stats_ksize_bytes, stats_step::<DbBytes>(2));
-hproof!(m_stats_vsize_bytes, stats_step::<DbBytes>(3));
+macro_rules! sproof {
+    ($name:ident, $body:expr) => {
+        #[kani::proof]
+        #[kani::unwind(6)]
+        #[kani::stub(abyssiniandb::HashValue::hash_value, StubHash::stub_hash)]
+        #[kani::stub(abyssiniandb::filedb::RecordSizeStats::touch_size, touch_size_stub)]
+        #[kani::stub(abyssiniandb::filedb::LengthStats::touch_length, touch_length_stub)]
+        fn $name() {
+            $body;
+        }
+    };
+}
+sproof!(m_stats_klen_bytes, stats_step::<DbBytes>(0));
+sproof!(m_stats_vlen_bytes, stats_step::<DbBytes>(1));
+sproof!(m_stats_ksize_bytes, stats_step::<DbBytes>(2));
+sproof!(m_stats_vsize_bytes, stats_step::<DbBytes>(3));
 
 hproof!(m_put_new_vu64, put_step::<DbVu64>(false));
 hproof!(m_put_over_vu64, put_step::<DbVu64>(true));
@@ -877,4 +893,5 @@ fn m_setup_reachable() {
     kani::cover!(n == NPRE && w().nb == 2 && w().heads[0] != 0 && w().heads[1] != 0, "both buckets populated");
     kani::cover!(n == NPRE && w().nb == 1, "one chain holding every entry");
 }
+
 
